@@ -150,6 +150,9 @@ func toGo(n any) any {
 		return num(m["v"])
 	case "flt":
 		q := m["q"].([]any)
+		if nz, _ := m["nz"].(bool); nz {
+			return math.Copysign(0, -1) // the literal -0.0
+		}
 		return float64(num(q[0])) / float64(int64(1)<<uint(num(q[1])))
 	case "str":
 		return bytesOf(m["v"])
